@@ -16,6 +16,18 @@ CHECKS = {
     'C11': dict(tech='exhaustive enumeration of layout variants (file/definition permutations, set partitions into files, comment/blank/continuation insertions, stdin) of every BFS-explored model, executed on specs_to_ir, the built-in backends and stone.cli.main',
                 text='For every model of the layout exploration, every file permutation, every definition permutation per file, every set partition of a namespace into up to three files, one comment/blank/trailer insertion at every line boundary, every continuation break and stdin delivery must give the same API signature (namespace docs recomputed in file order); backend output bytes are compared for the structural variants; a layout that flips acceptance is a violation.',
                 note='Backend byte comparison is restricted to the shallower models in the quick tier (the signature dump covers everything backends read); positions inside multi-line doc strings are not layout.', ref='6/C11'),
+    'C04': dict(tech='exhaustive enumeration of (type shape, position, boundary value, mode) over a packed runtime universe; round trip executed on the generated classes and serializers',
+                text='Every type expression up to the nesting bound over primitives with boundary parameters, user types of every kind and aliases, at every position (struct field, union member, alias, route argument), with every boundary value, in strict and lenient mode through both entry points: decode(encode(v)) equals v (observed through public attributes and by the generated __eq__) and re-encoding gives the same JSON.',
+                note='Values are instantiated through public constructors only; the catch-all tag is not a sendable value; one documented exception (nullable struct member without set fields).', ref='6/C04'),
+    'C05': dict(tech='exhaustive enumeration of (type shape, position, boundary value) with an independent reference encoder driven by stone.ir',
+                text='For the same space as C04, the output of json_compat_obj_encode and json_encode equals (as parsed JSON) the reference encoding written clause by clause from docs/json_serializer.rst and driven by the stone.ir description, never by the generated reflection tables.',
+                note='Key order is not compared.', ref='6/C05'),
+    'C06': dict(tech='BFS over JSON documents per type shape (reference encodings, every single structural mutation, all small documents) against a three-valued reference reading',
+                text='Every document of the explored set is decoded in strict and lenient mode: the outcome is a value or ValidationError (any other exception is a violation), must-accept documents decode to the reference value, must-reject documents are refused, and a value returned for an unspecified document is still valid for the type.',
+                note='Reference reading in mc/rtdoc.py from docs/json_serializer.rst; unspecified zones listed in the evidence assumptions.', ref='6/C06'),
+    'C08': dict(tech='exhaustive enumeration of probes (bound-1, bound, bound+1, every wrong Python type, related/unrelated classes) for every parameterised primitive and every universe shape through three doors',
+                text='accept <=> valid by the reference predicate derived from stone.ir, refusal is always ValidationError, accepted values read back equal up to the documented normalisations.',
+                note='bool offered to numeric types is unspecified; for user types the class relation is judged.', ref='6/C08'),
 }
 
 NOT_YET = {}
